@@ -6,8 +6,17 @@ import (
 	"net"
 	"sort"
 	"strings"
+	"sync/atomic"
 	"time"
 )
+
+// closeErrs counts service-side Close calls that returned an error or panicked (shown
+// as a note, not judged).
+var closeErrs atomic.Int64
+
+// both-ends-close windows played: how many, how many of them with the listener's sender
+// stuck (a service write that did not return), and the blocks written to get there
+var raceWindows, raceStalled, raceBlocks atomic.Int64
 
 // ---------------------------------------------------------------- case description
 
@@ -27,8 +36,9 @@ type connSpec struct {
 }
 
 type step struct {
-	Op      string `json:"op"` // hello data eof swrite udp unk-data unk-eof ping sync
+	Op      string `json:"op"` // hello data eof swrite sclose race udp unk-data unk-eof ping sync
 	C       int    `json:"c"`
+	Y       int    `json:"y,omitempty"` // race: the other open connection, whose service's writes occupy the session's sender
 	N       int    `json:"n,omitempty"`
 	Variant int    `json:"variant,omitempty"` // unk-*: how the id differs from connection C's
 	V6      bool   `json:"v6,omitempty"`      // udp
@@ -133,6 +143,8 @@ type connState struct {
 	root      int
 	announced bool
 	open      bool
+	sclosed   bool        // the service has closed the connection on its own
+	agentEOF  bool        // ... and the agent has sent its end-of-stream for it since
 	inv       *invocation // resolved for single-member groups
 	expect    []byte      // bytes the service must read
 	back      []byte      // bytes the agent must get back
@@ -147,6 +159,17 @@ type groupState struct {
 	msgs      [][]byte
 	ambiguous bool // two incarnations were open at the same time
 }
+
+// What a both-ends-close window costs: the service of the other connection writes
+// blocks of fillBlock bytes until a write no longer returns within the stall time (the
+// agent has stopped reading, so this is when the socket buffers are full and the
+// session's sender is stuck); at most maxFill blocks. The settle time is what the two
+// closers get to reach the listener before the agent reads again. None of these times
+// decides a verdict: when they are too short the window just does not open.
+const (
+	fillBlock = 60000
+	maxFill   = 400
+)
 
 const (
 	// bound of every wait in a patient play (measured in slices; a wait that fails is
@@ -204,7 +227,7 @@ func subseqConcat(data []byte, msgs [][]byte) bool {
 
 // runSession plays the case against the real listener once. infra problems are returned
 // as errors whose text starts with "infra:"; property failures as *failure.
-func runSession(c sessCase, patient bool) error {
+func runSession(c sessCase, patient bool) (result error) {
 	bound := waitSearch
 	if patient {
 		bound = waitPatient
@@ -304,7 +327,11 @@ func runSession(c sessCase, patient bool) error {
 	}
 	world.mu.Unlock()
 
-	a, err := dialAgent(f)
+	hasRace := false
+	for _, s := range c.Steps {
+		hasRace = hasRace || s.Op == "race"
+	}
+	a, err := dialAgentOpt(f, hasRace)
 	if err != nil {
 		return fmt.Errorf("infra: dial agent listener: %v", err)
 	}
@@ -365,6 +392,17 @@ func runSession(c sessCase, patient bool) error {
 		return a.rdone
 	}
 	disconnected := false
+	defer a.setPaused(false) // never leave the reader parked
+	defer func() {
+		// say so when the failure was seen on a session the listener had already ended
+		if f, ok := result.(*failure); ok && !disconnected && dead() {
+			result = &failure{kind: f.kind, msg: f.msg + " [by then the listener had ended the whole agent session, although the agent had neither disconnected nor stopped sending]"}
+		}
+	}()
+	stallT, settleT := 200*time.Millisecond, 100*time.Millisecond
+	if patient {
+		stallT, settleT = 600*time.Millisecond, 400*time.Millisecond
+	}
 	twice := func(wait func(d time.Duration) bool) bool {
 		for spent := time.Duration(0); spent < bound; spent += waitSlice {
 			if wait(waitSlice) {
@@ -539,6 +577,12 @@ func runSession(c sessCase, patient bool) error {
 			}
 			if len(open) == 1 {
 				conns[open[0]].expect = append(conns[open[0]].expect, payload...)
+			} else if len(open) == 0 && single(s.C) && st.sclosed && !st.agentEOF {
+				// the service is closing this connection on its own, the agent has not
+				// ended it: when the close takes effect relative to this message is not
+				// determined, so the service may still read these bytes (a prefix of
+				// everything sent until the agent's end-of-stream is what is demanded)
+				st.expect = append(st.expect, payload...)
 			}
 			a.send(frame{Type: tRWTCP, L: st.l, R: st.r, Payload: payload})
 		case "eof":
@@ -567,6 +611,9 @@ func runSession(c sessCase, patient bool) error {
 					conns[o].open = false
 				}
 			}
+			if st.sclosed {
+				st.agentEOF = true
+			}
 			a.send(frame{Type: tEOF, L: st.l, R: st.r})
 		case "swrite":
 			st := conns[s.C]
@@ -581,6 +628,78 @@ func runSession(c sessCase, patient bool) error {
 			st.swOff += s.N
 			st.back = append(st.back, b...)
 			st.inv.queueWrite(b)
+		case "sclose":
+			// the service is done with its client and closes the connection itself; the
+			// agent has not ended it. Everything the service wrote before goes out first.
+			st := conns[s.C]
+			if !single(s.C) || !st.open {
+				continue
+			}
+			a.flush()
+			if err := surfaced(s.C); err != nil {
+				return err
+			}
+			if err := writesDone(s.C); err != nil {
+				return err
+			}
+			if err := notEndedEarly(s.C, fmt.Sprintf("before step %d", si)); err != nil {
+				return err
+			}
+			st.open, st.sclosed = false, true
+			st.inv.queueClose()
+		case "race":
+			// Both ends close connection C at the same time: its service closes it while
+			// the agent's end-of-stream for it is on its way / being handled. The agent is
+			// slow (it stops reading) and the service of connection Y keeps writing, so
+			// that whatever the listener has to tell the agent queues up and the two
+			// closes overlap for as long as the agent stays away. Then the agent reads
+			// again. Nothing in here waits for the listener while the agent is paused.
+			if s.Y < 0 || s.Y >= len(conns) || s.Y == s.C {
+				continue
+			}
+			sx, sy := conns[s.C], conns[s.Y]
+			if !single(s.C) || !single(s.Y) || !sx.open || !sy.open {
+				continue
+			}
+			a.flush()
+			for _, i := range []int{s.C, s.Y} {
+				if err := surfaced(i); err != nil {
+					return err
+				}
+				if err := writesDone(i); err != nil {
+					return err
+				}
+				if err := notEndedEarly(i, fmt.Sprintf("before step %d", si)); err != nil {
+					return err
+				}
+			}
+			a.setPaused(true)
+			raceWindows.Add(1)
+			for blocks := 0; blocks < maxFill; blocks++ {
+				raceBlocks.Add(1)
+				b := stream(100+s.Y, sy.swOff, fillBlock)
+				sy.swOff += fillBlock
+				sy.back = append(sy.back, b...)
+				sy.inv.queueWrite(b)
+				if !world.waitFor(stallT, func() bool { return sy.inv.pending == 0 }) {
+					raceStalled.Add(1)
+					break // this write is stuck behind the one the sender cannot get rid of
+				}
+			}
+			sx.open, sx.sclosed, sx.agentEOF = false, true, true
+			if s.Variant%2 == 0 {
+				sx.inv.queueClose()
+				time.Sleep(settleT)
+				a.send(frame{Type: tEOF, L: sx.l, R: sx.r})
+				a.flush()
+			} else {
+				a.send(frame{Type: tEOF, L: sx.l, R: sx.r})
+				a.flush()
+				time.Sleep(settleT)
+				sx.inv.queueClose()
+			}
+			time.Sleep(settleT)
+			a.setPaused(false)
 		case "udp":
 			m := udpByStep[si]
 			a.send(frame{Type: tRWUDP, L: m.l, R: m.r, Payload: m.payload})
@@ -846,6 +965,9 @@ func runSession(c sessCase, patient bool) error {
 			if inv.werr != "" {
 				return failf("write-error", "service write on connection %s -> %s failed: %s", inv.remote, inv.local, inv.werr)
 			}
+			if inv.cerr != "" {
+				closeErrs.Add(1) // the statement is about relaying, not about what Close returns
+			}
 		}
 		if g.ambiguous {
 			for _, inv := range invs {
@@ -860,7 +982,13 @@ func runSession(c sessCase, patient bool) error {
 		for _, m := range g.members {
 			exp = append(exp, conns[m].expect)
 		}
-		if !matchPerm(exp, invs, same) {
+		cmp := same
+		if len(g.members) == 1 && conns[g.members[0]].sclosed {
+			// the service closed the connection itself: it has read what had arrived by
+			// then, which is some prefix of what was sent while it was open
+			cmp = func(got, exp []byte) bool { return bytes.HasPrefix(exp, got) }
+		}
+		if !matchPerm(exp, invs, cmp) {
 			if len(g.members) == 1 && len(invs) == 1 {
 				m := g.members[0]
 				got, exp0 := invs[0].data, exp[0]
